@@ -125,3 +125,121 @@ def e13(ctx):
         ctx.proved("E13", "graphtage/", "-", None, "memo keys complete", f"{scanned} methods scanned, {n} keyed stores on self, none under-keyed "
                                                                         f"(embedded positive and negative examples judged as expected)")
     ctx.floor("E13", scanned, 300, "methods scanned for memo stores")
+
+
+# ---- E13b: value-keyed memo decorators over raw document scalars -------------------------------------------------------------
+POSITIVE_B = """
+from functools import lru_cache
+@lru_cache(maxsize=1024)
+def _dist(a, b):
+    return len(str(a)) - len(str(b))
+class Leaf:
+    def edits(self, node):
+        return _dist(self.object, node.object)
+"""
+NEGATIVE_B = """
+from functools import lru_cache
+@lru_cache(maxsize=1024, typed=True)
+def _dist(a, b):
+    return len(str(a)) - len(str(b))
+@lru_cache(maxsize=None)
+def _sdist(a, b):
+    return len(a) - len(b)
+class Leaf:
+    def edits(self, node):
+        return _dist(self.object, node.object) + _sdist(str(self.object), str(node.object))
+"""
+_MEMO_DECORATORS = {"lru_cache", "cache", "functools.lru_cache", "functools.cache"}
+_TEXTUAL = {"str", "repr", "ascii", "type", "len", "id", "hash"}
+
+
+def _memo_decorated(tree):
+    """{function name: (def node, typed?)} for functions under functools.lru_cache / functools.cache, as decorators or as
+    `name = lru_cache(...)(f)` rebinding."""
+    out = {}
+
+    def deco(d):
+        call = d if isinstance(d, ast.Call) else None
+        f = call.func if call else d
+        name = dotted(f)
+        if name not in _MEMO_DECORATORS:
+            return None
+        typed = bool(call) and any(k.arg == "typed" and isinstance(k.value, ast.Constant) and k.value.value is True for k in call.keywords)
+        return typed
+
+    for n in ast.walk(tree):
+        if isinstance(n, (ast.FunctionDef, ast.AsyncFunctionDef)):
+            for d in n.decorator_list:
+                t = deco(d)
+                if t is not None:
+                    out[n.name] = (n, t)
+        elif isinstance(n, ast.Assign) and isinstance(n.value, ast.Call) and len(n.targets) == 1:
+            t = deco(n.value.func) if isinstance(n.value.func, ast.Call) or dotted(n.value.func) in _MEMO_DECORATORS else None
+            if t is not None and n.value.args:
+                tgt = dotted(n.targets[0])
+                if tgt:
+                    out[tgt.split(".")[-1]] = (n, t)
+    return out
+
+
+def _raw_scalar_args(call):
+    """Arguments of a call that hand over a node's wrapped Python object (`<x>.object`) as such, not its text or type."""
+    bad = []
+    for a in list(call.args) + [k.value for k in call.keywords]:
+        for x in ast.walk(a):
+            if isinstance(x, ast.Attribute) and x.attr == "object":
+                p, wrapped = getattr(x, "_parent", None), False
+                while p is not None and p is not call:
+                    if isinstance(p, ast.Call) and dotted(p.func) in _TEXTUAL:
+                        wrapped = True
+                        break
+                    p = getattr(p, "_parent", None)
+                if not wrapped:
+                    bad.append(x)
+    return bad
+
+
+def scan_b(trees):
+    """[(verdict, module key, node, function name, detail)] for a dict of module trees: memoised functions anywhere, call
+    sites (by name) anywhere."""
+    for t in trees.values():
+        _set_parents(t)
+    out = []
+    for mod, tree in sorted(trees.items()):
+        for name, (node, typed) in _memo_decorated(tree).items():
+            sites = [(m2, c) for m2, t2 in sorted(trees.items()) for c in ast.walk(t2)
+                     if isinstance(c, ast.Call) and (dotted(c.func) or "").split(".")[-1] == name]
+            raw = [(m2, c, x) for m2, c in sites for x in _raw_scalar_args(c)]
+            if raw and not typed:
+                out.append(("bad", raw[0][0], raw[0][1], name, ast.unparse(raw[0][2])))
+            else:
+                out.append(("ok", mod, node, name, f"{len(sites)} call site(s); {'typed=True' if typed else 'no raw scalar argument'}"))
+    return out
+
+
+def e13b(ctx):
+    m = ctx.model
+    ctx.rule("E13b", "a value-keyed memo (functools.lru_cache / cache without typed=True) is never handed a node's raw Python "
+                     "object: 1, 1.0 and True are equal and hash alike, so the result cached for one is served for the others - "
+                     "a pair that differs only in a scalar's type gets the cost of an equal pair computed earlier")
+    pos = [v for v, *_ in scan_b({"p": ast.parse(POSITIVE_B)})]
+    neg = [v for v, *_ in scan_b({"n": ast.parse(NEGATIVE_B)})]
+    if pos != ["bad"] or neg != ["ok", "ok"]:
+        raise Inconclusive(f"E13b self-test: embedded examples judged {pos} / {neg}")
+    n = bad = 0
+    for verdict, mod, node, name, detail in scan_b(m.mods):
+        if True:
+            n += 1
+            fl = m.files[mod]
+            if verdict == "bad":
+                bad += 1
+                ctx.violation("E13b", fl, name, node, f"{name} memo key",
+                              f"`{ast.unparse(node)[:80]}` passes `{detail}` to {name}(), which is memoised by value without typed=True: "
+                              f"1 == 1.0 == True share one cache entry, so after (1, 1) -> 0 was cached, (1, True) is answered 0 as well "
+                              f"and documents that differ only in a scalar's type compare as equal - depending on what was compared before")
+            else:
+                ctx.proved("E13b", fl, name, node, f"{name} memo key", detail)
+    if not bad:
+        ctx.proved("E13b", "graphtage/", "-", None, "no value-keyed memo over raw scalars",
+                   f"{len(m.mods)} modules scanned, {n} memoised function(s) (embedded positive and negative examples judged as expected)")
+    ctx.floor("E13b", len(m.mods), 20, "modules scanned for memo decorators")
